@@ -44,6 +44,8 @@ func c05Worlds(tier string) []explore.Case {
 	} else {
 		picks = append(picks, pick{"S:wide-14", 1, ""}, pick{"S:dep-2level", 0, ""})
 	}
+	// type declarations completed at several cursors (type name, inside parentheses, empty value)
+	picks = append(picks, pick{"C:TypeDeclaration/CFDS", -1, "attr = list()\nblk {\n  attr = \n}\nattr2 = ma\n"})
 	// a dependent body whose nested block has extensions of its own, under DynamicBlocks; the same
 	// nested block schema is reachable from a second block type
 	picks = append(picks, pick{"S:dep-nested-ext", 0, ""})
@@ -62,6 +64,11 @@ func c05Worlds(tier string) []explore.Case {
 	return out
 }
 
+// c05Anchors: for some worlds the two cursors are placed right behind these texts.
+var c05Anchors = map[string][]string{
+	"attr = list()\nblk {\n  attr = \n}\nattr2 = ma\n": {"attr = list(", "attr2 = ma"},
+}
+
 // c05Queries: one query per entry point (cursor queries at two positions inside the file).
 func c05Queries(cs *explore.Case, tier string) []run.Query {
 	src := []byte(cs.Text)
@@ -69,6 +76,16 @@ func c05Queries(cs *explore.Case, tier string) []run.Query {
 	var ps []int
 	if len(tb) > 0 {
 		ps = []int{len(tb) * 2 / 5, len(tb) * 4 / 5}
+	}
+	// explicit cursors: right behind each "|>" marker-free anchor text listed for the world (see c05Anchors)
+	for n, a := range c05Anchors[cs.Text] {
+		if i := strings.Index(cs.Text, a); i >= 0 && n < len(ps) {
+			for j, p := range tb {
+				if p.Byte == i+len(a) {
+					ps[n] = j
+				}
+			}
+		}
 	}
 	if i := strings.Index(cs.Text, "provider::aws::x"); i >= 0 {
 		// the cursor class that exercises function-name recovery over the raw file bytes
